@@ -22,8 +22,8 @@ RLIMIT = 80
 NAMES = ["From", "Compute", "Select", "Filter", "Aggregate", "Sort", "Take", "Join", "Append", "Loop",
          "Distinct", "DistinctOn", "Except", "Intersect", "Union"]
 
-LABELS = ["SO1.%s.%s" % (t, f) for t in NAMES for f in NAMES] + ["AS1", "AS2", "SO1c", "SO2a", "SO2b", "IC1", "IC2", "IC3", "CM1", "CM2", "RO1", "RO2", "RO3", "CX1", "GR1", "GR2"]
-FUNCTIONS = ["as_str", "is_split_required", "infer_complexity", "can_materialize", "reorder_should_swap", "compute_operand_cap"]
+LABELS = ["SO1.%s.%s" % (t, f) for t in NAMES for f in NAMES] + ["AS1", "AS2", "SO1c", "SO2a", "SO2b", "IC1", "IC2", "IC3", "CM1", "CM2", "CM3", "RO1", "RO2", "RO3", "CX1", "GR1", "GR2", "SA1", "SA2", "RA1"]
+FUNCTIONS = ["as_str", "is_split_required", "infer_complexity", "can_materialize", "reorder_should_swap", "compute_operand_cap", "split_compute_arm", "append"]
 
 ASSUMED = [
     common_rq.OPAQUE_ASSUMPTION,
@@ -36,6 +36,8 @@ ASSUMED = [
     {"what": "infer_complexity_expr (iterator .map().max() recursion) is external: uninterpreted expr_complexity()", "count": 2},
     {"what": "the filter/fold over inputs_required in can_materialize is replaced by min_allowed() with its contract (R5): result is "
              "the minimum of Complexity::highest() and the max_complexity of every requirement on that column", "count": 1},
+    {"what": "Requirements::allow_up_to / should_select (loops over `&mut` elements that set one field) are by contract: every requirement gets that cap / that flag, the rest "
+             "is unchanged; HashSet<CId>::insert is opaque (cid_set_insert); min_allowed_spec is uninterpreted", "count": 5},
     {"what": "RIId is opaque", "count": 0},
 ]
 TRUSTED = [
@@ -242,11 +244,14 @@ proof fn complexity_order() ensures rank(Complexity::Plain) < rank(Complexity::N
             r.0 ==> forall|i: int| 0 <= i < inputs_required@.len() && (#[trigger] inputs_required@[i]).col == compute.id
                         ==> rank(compute_complexity(*compute)) <= rank(inputs_required@[i].max_complexity), // @CM1
             r.0 == (rank(compute_complexity(*compute)) <= rank(r.1)), // @CM2
+            r.1 == min_allowed_spec(inputs_required@, compute.id), // @CM3
     """)
     min_allowed = r"""
+pub uninterp spec fn min_allowed_spec(reqs: Seq<Requirement>, id: rq::CId) -> Complexity;
 #[verifier::external_body]
 pub fn min_allowed(reqs: &[Requirement], id: rq::CId) -> (r: Complexity)
     ensures
+        r == min_allowed_spec(reqs@, id),
         forall|i: int| 0 <= i < reqs@.len() && (#[trigger] reqs@[i]).col == id ==> rank(r) <= rank(reqs@[i].max_complexity),
         r == Complexity::Aggregation || exists|i: int| 0 <= i < reqs@.len() && (#[trigger] reqs@[i]).col == id && r == reqs@[i].max_complexity,
 { unimplemented!() }
@@ -323,10 +328,51 @@ pub fn contains_any<const C: usize>(set: &HashSet<String>, elements: [&'static s
                "{\n    match c " + gr.text[mg.end() - 1:ge] + "\n}\n")
     gr.rewrites.append({"rule": "slice", "what": "`match infer_complexity(compute) { .. }` (argument of allow_up_to in the Compute arm of get_requirements) wrapped as fn compute_operand_cap(c)"})
 
+    # ---- split_off_back: the Compute arm of the backward traversal, and Requirements::append
+    reqs_t = "pub struct Requirements(pub Vec<Requirement>);\n"
+    ap = X.fn(ANCHOR, "append", after="impl Requirements").pub_all()
+    ap.rebind_mut_params()
+    ap.ret_name("r")
+    ap.contract("ensures r.0@ == self.0@ + other0.0@, // @RA1")
+    reqs_impl = ("impl Requirements {\n" + ap.text + """
+    #[verifier::external_body]
+    pub fn allow_up_to(self, max_complexity: Complexity) -> (r: Requirements)
+        ensures r.0@.len() == self.0@.len(), forall|i: int| 0 <= i < self.0@.len() ==> (#[trigger] r.0@[i]).col == self.0@[i].col && r.0@[i].selected == self.0@[i].selected && r.0@[i].max_complexity == max_complexity,
+    { unimplemented!() }
+    #[verifier::external_body]
+    pub fn should_select(self, selected: bool) -> (r: Requirements)
+        ensures r.0@.len() == self.0@.len(), forall|i: int| 0 <= i < self.0@.len() ==> (#[trigger] r.0@[i]).col == self.0@[i].col && r.0@[i].max_complexity == self.0@[i].max_complexity && r.0@[i].selected == selected,
+    { unimplemented!() }
+}
+#[verifier::external_body] pub struct CidSet { _p: u8 }
+#[verifier::external_body] pub fn cid_set_insert(s: &mut CidSet, c: CId) { unimplemented!() }
+// the dependencies of a compute, capped: same columns, none of them selected, each allowed at most `cap`
+pub open spec fn capped(deps: Seq<Requirement>, cap: Complexity, out: Seq<Requirement>) -> bool {
+    out.len() == deps.len() && forall|i: int| 0 <= i < deps.len() ==> (#[trigger] out[i]).col == deps[i].col && out[i].max_complexity == cap && !out[i].selected
+}
+""")
+    sa = X.arm_body(ANCHOR, "split_off_back", "SqlTransform::Super(Transform::Compute(compute)) =>", name="split_compute_arm")
+    sa.drop_logging()
+    sa.rewrite_re("R1", r"//[^\n]*\n", "\n", count=None, why="comments")
+    sa.rewrite_re("R5", r"can_materialize\(compute, &inputs_required\)", "can_materialize(compute, inputs_required.0.as_slice())", count=None, why="Deref<Target = [Requirement]> of Requirements")
+    sa.rewrite_re("R5", r"\binputs_avail\.insert\(compute\.id\);", "cid_set_insert(inputs_avail, compute.id);", count=None, why="HashSet<CId>::insert")
+    sa.rewrite_re("R11", r"pipeline\.push\(transform\);\s*break;", "return (false, inputs_required);", count=1, why="`break` of the traversal = the step reports `stop` (the transform goes back to the pipeline: not modelled)")
+    sa.rewrite_re("R12", r"inputs_required = inputs_required\s*\.append\((required\.allow_up_to\(max_complexity\)\.should_select\(false\))\);",
+                  r"let verif_deps = \1; proof { assert(capped(required.0@, max_complexity, verif_deps.0@)); } inputs_required = inputs_required.append(verif_deps);", count=1,
+                  why="A-normal form: the appended requirements are named so that a proof hint can refer to them")
+    sa.text = ("pub fn split_compute_arm(compute: &Compute, required: Requirements, inputs_required0: Requirements, inputs_avail: &mut CidSet) -> (r: (bool, Requirements))\n"
+               "    ensures\n"
+               "        // C04 / C01: what a compute that is materialised in this SELECT refers to inherits the cap of that compute - whether or not the compute is part of the projection\n"
+               "        // (an expression over a window function that is only used in a WHERE must not pull the window function into that WHERE)\n"
+               "        r.0 ==> exists|deps: Seq<Requirement>| #[trigger] capped(required.0@, min_allowed_spec(inputs_required0.0@, compute.id), deps) && r.1.0@ == inputs_required0.0@ + deps, // @SA1\n"
+               "        !r.0 ==> r.1 == inputs_required0, // @SA2\n"
+               "{\n    let mut inputs_required = inputs_required0;\n    " + sa.text + "\n    (true, inputs_required)\n}\n")
+    sa.rewrites.append({"rule": "slice", "what": "arm `Super(Compute(compute))` of the backward traversal of split_off_back wrapped as fn split_compute_arm(compute, required, inputs_required, inputs_avail) -> (go on, inputs_required)"})
+
     imports = "use rq::{CId, Compute, Expr, RelationColumn, TableRef, Transform};  // as in anchor.rs / preprocess.rs\n"
     body = "\n".join([model, imports, sqlt.text, ORACLE, names_lemma, as_str_impl, cx.text, cmp_specs, cx_impl.text,
                       "#[verifier::external_body]\npub fn complexity_min(a: Complexity, b: Complexity) -> (r: Complexity) ensures r == (if rank(a) <= rank(b) { a } else { b }), { unimplemented!() }\n",
-                      req.text, ice, ic.text, min_allowed, cm.text, ca_text, isr.text, ro.text, gr.text])
+                      req.text, ice, ic.text, min_allowed, cm.text, ca_text, isr.text, ro.text, gr.text, reqs_t, reqs_impl, sa.text])
     return PRELUDE + body + "\n} // verus!\nfn main() {}\n"
 
 
@@ -340,6 +386,8 @@ WINDOW_CASES = [
     # a window column derived AFTER a take sees only the taken rows
     ("from u\nsort a\ntake 3..5\nderive {r = row_number this}\nfilter r == 1\nselect {id}\n", [(3,)]),
     ("from u\nsort {-a}\ntake 4\nderive {tot = sum c}\nselect {id, tot}\nsort id\n", [(6, 3000), (7, 3000), (8, 3000), (9, 3000)]),
+    # an expression over a window function that is used only in a filter in front of an aggregation: the window function needs its own sub-query
+    ("from u\nsort id\nderive {d = a - (lag 1 a)}\nfilter d > 0\naggregate {n = count this}\n", [(8,)]),
     # a window column derived AFTER a de-duplication counts the distinct rows (SQL evaluates OVER before DISTINCT: the DISTINCT needs its own sub-query)
     ("from t\nselect {g, x}\ngroup {g, x} (take 1)\ngroup g (derive {n = count this})\nfilter n > 1\nselect {g, x}\nsort {g, x}\n", [("a", 10), ("a", 20), ("a", 30)]),
 ]
@@ -377,7 +425,7 @@ def replay(failure):
             r = _window_try(src, exp)
             if r["failing"]:
                 return r
-    if lab.startswith(("GR", "CM", "IC", "RO")) or lab.endswith(".Compute"):
+    if lab.startswith(("GR", "CM", "IC", "RO", "SA", "RA")) or lab.endswith(".Compute"):
         for src, exp in WINDOW_CASES:
             r = _window_try(src, exp)
             if r["failing"]:
